@@ -103,7 +103,7 @@ TObs ==
   /\ IsEvent("obs")
   /\ LET o == Rec[l].obs IN
        IF Full /\ Outcome(ps) = "ok"
-       THEN LET bad == Failing(ps, o) IN Verdict(bad = {}, <<case, "observation", bad>>)
+       THEN LET bad == Failing(ps, o) IN Verdict(bad = {}, <<case, "observation", bad, IF "panics" \in bad THEN o.panics ELSE <<>>>>)
        ELSE LET bad == UsableFailing(o) IN Verdict(bad = {}, <<case, "usable", bad, o.panics>>)
   \* C07: an equivalent encoding yields the same observation as the base encoding
   /\ Verdict(base.var => Rec[l].obs = base.obs, <<case, "variant_observation_differs",
